@@ -367,6 +367,17 @@ fn decode_batch(b: &Value, uni: &[Key], tag: u64) -> Batch {
             }
             continue;
         }
+        if code == "d78" {
+            // delete 7 of every 8 keys of a run of `size` consecutive universe keys
+            for j in 0..size.unwrap() {
+                if (ki + j) % 8 != 0 {
+                    if let Some(k) = uni.get(ki + j) {
+                        out.push((*k, Act::Write(None)));
+                    }
+                }
+            }
+            continue;
+        }
         if code == "dn" {
             for j in 0..size.unwrap() {
                 if let Some(k) = uni.get(ki + j) {
